@@ -559,6 +559,12 @@ impl MutableArchive {
         use std::fs;
         use tempfile::NamedTempFile;
 
+        // Persist pending changes and re-read the archive so that name lookup
+        // (listfile) and file reads below see files added during this session
+        // instead of the stale view captured when the archive was opened.
+        self.flush()?;
+        self.archive = Archive::open(&self._path)?;
+
         // Ensure tables are loaded
         self.ensure_tables_loaded()?;
 
@@ -608,12 +614,15 @@ impl MutableArchive {
                         None
                     };
 
-                    let filename = filename.unwrap_or_else(|| {
-                        // Generate placeholder name if not found in listfile
-                        generate_anonymous_filename(
-                            ((entry.name_1 as u64) << 32 | entry.name_2 as u64) as u32,
-                        )
-                    });
+                    // Without the real name the file cannot be re-added under the
+                    // same hashes, so refuse to compact rather than lose it
+                    let filename = filename.ok_or_else(|| {
+                        Error::invalid_format(format!(
+                            "Cannot compact: no filename known for hash entry {hash_idx} \
+                             ({:08X}:{:08X}); it is missing from (listfile)",
+                            entry.name_1, entry.name_2
+                        ))
+                    })?;
 
                     files_to_copy.push((hash_idx, block_idx, filename, *entry, *block));
                 }
@@ -628,14 +637,9 @@ impl MutableArchive {
             }
 
             // Read the file data
-            let file_data = match self.read_file(filename) {
-                Ok(data) => data,
-                Err(_) => {
-                    // Skip files we can't read
-                    log::warn!("Skipping file {filename} during compaction (read error)");
-                    continue;
-                }
-            };
+            // A file that cannot be read must abort compaction: skipping it would
+            // silently delete it from the archive
+            let file_data = self.read_file(filename)?;
 
             // Determine compression and encryption from block flags
             let compression = if block_entry.is_compressed() {
